@@ -794,6 +794,9 @@ class StmtMixin:
             nf = fresh_int('front'); sh.assume(nf >= st0.front); sh.front = nf
         self.havoc_frame(sh, fields, names, pre_env, st0)
         sh.assume(z3.And(0 <= i, i < n))
+        if it.src is not None and base_type(it.src.ty) == "dict" and Val.is_RefV(it.src.t) is not None:
+            # instance of the representation fact of dict_link at the current index: the enumerated key is a member
+            sh.assume(z3.Select(st0.read("$dhas", vr(it.src.t)), self.dkeys(st0, it.src)[i]))
         sh.trace.append(Effect("loop:" + key, [], s.lineno, None, inner=sorted(loop_effects)))
         self.loop_unchanged(sh, st0, it)
         for e, f in inv_terms(sh, i):
